@@ -258,6 +258,9 @@ static void query_bc(World<Mesh> &w, std::ostream &o, OracleOut &out, const std:
 static void query(World<Mesh> &w, std::ostream &o, int m_laps, const std::vector<std::string> &walks) {
     PM &m = w.mesh;
     Snap s = take_snap(w);
+    // rule: a state in which a stored definition names an entity that does not exist (reachable only outside the
+    // valid histories, e.g. after deleting a face whose halfface was shared by two cells) is not queried at all
+    if (!refs_ok(s)) { o << "Q skipped: a stored handle is out of range\n"; return; }
     Brute br(s);
     OracleOut out{o};
     int nv = s.nv, ne = (int)s.E.size(), nf = (int)s.F.size(), nc = (int)s.C.size();
@@ -428,6 +431,19 @@ static void run_script(const std::vector<std::string> &lines) {
             { std::string s0 = o.str(); fwrite(s0.data(), 1, s0.size(), stdout); fflush(stdout); o.str(""); }
             Snap s = take_snap(w); Brute br(s); OracleOut out{o};
             query_bc(w, o, out, {}, false, br, s);
+        } else if (toks[0] == "QueryCF") {
+            // D15 replay: cf_iter(c); --it; ++it;  (the harness rule that stops a CellFaceIter walk once lap() < 0 is NOT applied)
+            o << "== " << lineno << " QueryCF -> Ok -\n";
+            dump_state(w, o);
+            { std::string s0 = o.str(); fwrite(s0.data(), 1, s0.size(), stdout); fflush(stdout); o.str(""); }
+            for (int x = 0; x < (int)w.mesh.n_cells(); ++x) {
+                if (w.mesh.cell(CellHandle(x)).halffaces().empty()) continue;
+                auto it = w.mesh.cf_iter(CellHandle(x));
+                --it;
+                std::string a = cobs(it);
+                ++it;
+                o << "CFB " << x << " : " << a << " " << cobs(it) << "\n";
+            }
         } else if (toks[0] == "QueryD11") {
             o << "== " << lineno << " QueryD11 -> Ok -\n";
             dump_state(w, o);
